@@ -36,6 +36,9 @@ func main() {
 		if part("lazy") {
 			runLazy(cfg, res, rng)
 		}
+		if part("reg") {
+			runReg(cfg, res, rng)
+		}
 		if part("race") {
 			runRace(cfg, res, rng)
 		}
@@ -419,8 +422,9 @@ func (e *explorer) visit(c caseT, rr *runResult, family string, forceCoq bool) {
 // completed by always taking the first enabled thread, every other enabled thread at every later position is a new prefix)
 func (e *explorer) exploreAll(c caseT, limit int, family string) (runs int, complete bool) {
 	stack := [][]int{nil}
+	unfinished := 0
 	for len(stack) > 0 {
-		if runs >= limit {
+		if runs >= limit || unfinished >= 2 || stuck() {
 			return runs, false
 		}
 		prefix := stack[len(stack)-1]
@@ -429,6 +433,7 @@ func (e *explorer) exploreAll(c caseT, limit int, family string) (runs int, comp
 		runs++
 		e.visit(c, rr, family, false)
 		if rr.Hang != "" || rr.Deadlock {
+			unfinished++ // (reported by visit; two such runs are enough for one program)
 			continue
 		}
 		for i := len(rr.Sched) - 1; i >= len(prefix); i-- {
@@ -508,7 +513,7 @@ func runControlled(cfg *lib.Config, res *lib.Result, rng *lib.Rng) {
 			truncated++
 			res.Count("programs.truncated." + family)
 			// beyond the cap: random schedules
-			for k := 0; k < 50; k++ {
+			for k := 0; k < 50 && !stuck(); k++ {
 				r := rng.Fork()
 				rr := runSchedule(c.Cfg, c.Prog, noisyPolicy(r, len(c.Prog), 10+r.Intn(30)))
 				e.visit(c, rr, family+".random", false)
@@ -527,7 +532,7 @@ func runControlled(cfg *lib.Config, res *lib.Result, rng *lib.Rng) {
 	// 4 goroutines: randomised-priority sampling, plus noisy schedules
 	for i := 0; i < nRandom4; i++ {
 		c := randomProgram(rng.Fork(), 4, 2)
-		for k := 0; k < pct4; k++ {
+		for k := 0; k < pct4 && !stuck(); k++ {
 			r := rng.Fork()
 			var pol policy
 			if k%4 == 3 {
@@ -543,6 +548,9 @@ func runControlled(cfg *lib.Config, res *lib.Result, rng *lib.Rng) {
 	res.Extra["programs_truncated_at_cap"] = truncated
 	res.Extra["schedules_per_program_cap"] = perProgram
 	res.Extra["schedules_run"] = e.nRuns
+	if stuck() {
+		res.Extra["exploration_cut_short"] = fmt.Sprintf("%d runs did not finish (each one is reported as a violation); no further runs were started", unfinishedRuns)
+	}
 	res.Extra["sequential_oracle_programs"] = len(seqMemo)
 	res.Exhaustive = truncated == 0
 	for i, f := range e.files {
@@ -589,6 +597,8 @@ func replay(cfg *lib.Config, res *lib.Result) {
 			e.visit(c, rr, "replay", true)
 		case "lazy":
 			replayLazy(cfg, res, in)
+		case "reg":
+			replayReg(cfg, res, in)
 		case "race":
 			replayRace(cfg, res, in)
 		default:
